@@ -119,8 +119,12 @@ theorem run_shift (cfg : Config) (p : Nat) (d : List Nat) : ∀ (us : List DUnit
     intro s
     unfold run
     have : (shiftS p d s).lastPI.isNone = s.lastPI.isNone := by cases h : s.lastPI <;> simp [shiftS, h]
-    rw [this]
-    split <;> rfl
+    rw [this, checkLastNext_shift]
+    split
+    · rfl
+    · cases checkLastNext s with
+      | ok _ => rfl
+      | error v => rfl
   | cons u rest ih =>
     intro s
     rw [run_cons, run_cons, parseInfo_shift]
